@@ -4,6 +4,7 @@ package c16
 
 import (
 	"bytes"
+	"regexp"
 	"encoding/binary"
 	"encoding/gob"
 	"encoding/json"
@@ -28,7 +29,7 @@ func init() {
 }
 
 const allocLimit = 256 << 20 // eight times the largest message bound the system declares (32 MiB)
-var asLimit = int64(2 << 30) // address-space limit of a child: an allocation of about 1 GiB or more ends as a countable out-of-memory exit
+var asLimit = int64(2560 << 20) // address-space limit of a child: an allocation of about 1 GiB or more ends as a countable out-of-memory exit
 
 // ---- measurement and signatures (child side)
 
@@ -102,16 +103,53 @@ func sigOf(text string) string {
 	return fn + "/" + kind
 }
 
-// crashSig maps the stderr of a dead child to a signature.
-func crashSig(ep, text string) string {
+var oomRe = regexp.MustCompile(`cannot allocate ([0-9]+)-byte block`)
+
+// crashSig maps the stderr of a dead child to a signature ("" = the death says
+// nothing about immudb: the child ran into its own address-space limit on a
+// small allocation). region, when not empty, names the mutated region of a
+// file-level case: several unbounded allocations hide behind one Open.
+func crashSig(ep, region, text string) string {
 	s := fw.PanicSignature(text)
 	if strings.HasSuffix(s, "/out-of-memory") {
-		return ep + "/alloc-over-256MiB"
+		m := oomRe.FindStringSubmatch(text)
+		if m == nil {
+			return ""
+		}
+		var n uint64
+		fmt.Sscan(m[1], &n)
+		if n <= allocLimit {
+			return ""
+		}
+		return allocSig(ep, region)
 	}
-	if strings.Contains(text, "goroutine ") && strings.Contains(text, "panic:") {
-		return sigOf(text)
+	return sigOf(text)
+}
+
+func allocSig(ep, region string) string {
+	if region != "" {
+		return ep + "/alloc-over-256MiB/" + region
 	}
-	return s
+	return ep + "/alloc-over-256MiB"
+}
+
+// regionOfClass reduces a file-level mutation class to the mutated region:
+// no file kind, no value label, no nesting of wrapped metadata
+// ("commit:field:hdr.w.w.int:MAX_KEY_LEN=1GiB" -> "int:MAX_KEY_LEN").
+func regionOfClass(class string) string {
+	if i := strings.LastIndex(class, "="); i >= 0 {
+		class = class[:i]
+	}
+	if i := strings.Index(class, ":"); i >= 0 {
+		class = class[i+1:]
+	}
+	class = strings.TrimPrefix(class, "field:")
+	class = strings.TrimPrefix(class, "hdr-bitflip:")
+	class = strings.TrimPrefix(class, "hdr.")
+	for strings.HasPrefix(class, "w.") {
+		class = class[2:]
+	}
+	return class
 }
 
 // ---- batches, markers, skip list (shared by the pure and the ReplicateTx groups)
@@ -248,7 +286,14 @@ func runBatches(c *fw.Ctx, child string, co *Corpora, setup []byte, batches []ba
 			class, in := inputOf(b, idx)
 			debugf("%s %s input #%d (%s) crashed=%v timedout=%v: %s", child, b.EP, idx, class, r.Crashed, r.TimedOut, firstLines(r.Text, 3))
 			if r.Crashed {
-				sig := crashSig(b.EP, r.Text)
+				sig := crashSig(b.EP, "", r.Text)
+				if sig == "" {
+					c.Inconclusive(fmt.Sprintf("%s: child ran out of address space on a small allocation during %s input #%d: %s", child, b.EP, idx, firstLines(r.Text, 2)))
+					if rest := b.From + b.N - (idx + 1); rest > 0 {
+						next = append(next, batch{EP: b.EP, J: b.J, From: idx + 1, N: rest})
+					}
+					return
+				}
 				c.Eval(1)
 				c.Distinct(b.EP + "|" + class + "|crash:" + sig)
 				c.Count("inputs:"+b.EP, 1)
@@ -500,6 +545,36 @@ func violate(c *fw.Ctx, sig, detail string, files map[string][]byte) {
 	}
 }
 
+// parkedOnLock: the main goroutine of the dump is blocked acquiring a mutex.
+func parkedOnLock(dump string) bool {
+	i := strings.Index(dump, "\ngoroutine 1 ")
+	if i < 0 {
+		return false
+	}
+	line := dump[i+1:]
+	if j := strings.Index(line, "\n"); j >= 0 {
+		line = line[:j]
+	}
+	return strings.Contains(line, "[sync.Mutex.Lock") || strings.Contains(line, "[sync.RWMutex") || strings.Contains(line, "[semacquire")
+}
+
+// hangSig names the immudb function in which the main goroutine is parked.
+func hangSig(ep, dump string) string {
+	i := strings.Index(dump, "\ngoroutine 1 ")
+	if i >= 0 {
+		blk := dump[i+1:]
+		if j := strings.Index(blk, "\n\n"); j >= 0 {
+			blk = blk[:j]
+		}
+		for _, name := range frames(blk) {
+			if strings.HasPrefix(name, "github.com/codenotary/immudb/") {
+				return strings.TrimPrefix(name, "github.com/codenotary/immudb/") + "/hang"
+			}
+		}
+	}
+	return ep + "/hang"
+}
+
 func debugf(format string, a ...any) {
 	if os.Getenv("VERIF_C16_DEBUG") != "" {
 		fmt.Fprintf(os.Stderr, format+"\n", a...)
@@ -549,12 +624,20 @@ func runConfirm(c *fw.Ctx, setup []byte, reqs []confirmReq) {
 			d := rq.Data
 			switch {
 			case r.Crashed:
-				sig := crashSig(rq.B.EP, r.Text)
+				sig := crashSig(rq.B.EP, "", r.Text)
+				if sig == "" {
+					c.Inconclusive(name + ": child ran out of address space on a small allocation when re-running a case alone")
+					return
+				}
 				c.Eval(1)
 				violate(c, sig, fmt.Sprintf("entry point %s input #%d: the child process died on this input when re-run alone\n%s", rq.B.EP, rq.B.From, firstLines(r.Text, 30)), map[string][]byte{"case.json": d, "stderr.txt": []byte(r.Text)})
+			case r.TimedOut && name != "c16pure" && !parkedOnLock(r.Text):
+				// a multi-goroutine component waiting on a channel / condition may be waiting for
+				// another goroutine that cannot progress on corrupted data: not decidable from here
+				c.Inconclusive(fmt.Sprintf("%s: %s still waiting (not on a mutex) after 60 s when re-run alone: %s", name, rq.B.EP, hangSig(rq.B.EP, r.Text)))
 			case r.TimedOut:
 				c.Eval(1)
-				violate(c, rq.B.EP+"/hang", fmt.Sprintf("entry point %s input #%d: still running after 60 s when re-run alone in an idle child\n%s", rq.B.EP, rq.B.From, firstLines(r.Text, 40)), map[string][]byte{"case.json": d, "stderr.txt": []byte(r.Text)})
+				violate(c, hangSig(rq.B.EP, r.Text), fmt.Sprintf("entry point %s input #%d: still running after 60 s when re-run alone in an idle child\n%s", rq.B.EP, rq.B.From, firstLines(r.Text, 40)), map[string][]byte{"case.json": d, "stderr.txt": []byte(r.Text)})
 			default:
 				var out batchOut
 				if name != "c16file" && json.Unmarshal(r.Out, &out) == nil {
